@@ -3,7 +3,7 @@
 # Confirms a seeded change in a scratch worktree of /repo: compiles, demo fails with / passes without,
 # package tests (or with `full` the whole suite compared with BASELINE stable_pass) pass with the change.
 tag=$1; pkg=$2; rx=$3; full=$4
-src=/tmp/seed-$tag/SEED
+src=${SEEDSRC:-/tmp/seed-$tag/SEED}
 wt=/tmp/confirm-$tag
 export GOFLAGS=-mod=mod GOPROXY=off
 git -C /repo worktree add -q --detach $wt HEAD || exit 2
